@@ -24,7 +24,8 @@ import (
 //
 // Routing domain (host/vip/route/cluster_conf, one ServerDataConfReload):
 //   version v: host h.example -> product p<v%2>; route rule of that product ->
-//   cluster cl<v%3>; the other product's rule -> clX. A request that took the
+//   cluster cl<v%3>; the other product's rule -> clX; cluster_conf describes only
+//   those two clusters. A request that took the
 //   product from one version and the route from another ends in clX or in a
 //   cluster no admissible version gives.
 // Balancing domain (gslb + cluster_table, one GslbDataConfReload):
@@ -50,7 +51,9 @@ func c15writeRouting(dir string, v int, torn bool) {
 		prod:  []map[string]interface{}{{"Cond": "default_t()", "ClusterName": fmt.Sprintf("cl%d", v%3)}},
 		other: []map[string]interface{}{{"Cond": "default_t()", "ClusterName": "clX"}}}})
 	cc := map[string]interface{}{}
-	for _, cl := range c15clusters {
+	// a version only describes the clusters it routes to: a request routed under one version
+	// and looked up in another finds no such cluster
+	for _, cl := range []string{fmt.Sprintf("cl%d", v%3), "clX"} {
 		cc[cl] = map[string]interface{}{
 			"BackendConf": map[string]interface{}{"TimeoutConnSrv": 500, "TimeoutResponseHeader": c15hdrTimeout(v), "MaxIdleConnsPerHost": 1 + v%3, "RetryLevel": 0},
 			"CheckConf":   map[string]interface{}{"Schem": "tcp", "FailNum": 1000, "CheckInterval": 1000},
@@ -506,7 +509,7 @@ func (h *c15) finalState() bool {
 		s.FailK("C15.final", "final-version-unreadable", "published cluster_conf version %q", ver)
 		return false
 	}
-	for _, cl := range c15clusters[:3] {
+	for _, cl := range []string{fmt.Sprintf("cl%d", v%3), "clX"} {
 		s.Checked(1)
 		srv.ReverseProxy.tsMu.RLock()
 		tr, _ := srv.ReverseProxy.transports[cl].(*bfe_http.Transport)
